@@ -549,6 +549,144 @@ class SendAssociateTask(Task):
             I.ob(f"{P}/user-information-is-the-acceptor's-user-information-list", one("user_information") is vals[("acceptor", "user_information")])
 
 
+class SendRejectTask(Task):
+    """ACSE.send_reject on its real body for ARBITRARY integers: the triples of PS3.8 Table 9-21 (result 1/2; source 1 with
+    reason 1,2,3,7; source 2 or 3 with reason 1,2) leave as ONE fresh A-ASSOCIATE primitive carrying exactly the three values it
+    was called with, the association is marked rejected and not established; every other triple is refused with ValueError
+    before anything is sent or marked.  (The acceptance policy's contract says WHICH triple each refusal uses; this one says the
+    triple reaches the provider unchanged.)"""
+    shard = False
+    name = "ACSE.send_reject"
+    functions = [f"{AC}:ACSE.send_reject"]
+
+    def __init__(self, prefix="C13/"):
+        self.prefix = prefix
+        self.P = f"{prefix}{AC}:ACSE.send_reject"
+
+    def config(self, repo):
+        c = Config()
+        c.ob_prefix = self.prefix
+        c.summaries["pynetdicom.pdu_primitives:A_ASSOCIATE"] = lambda I, a, k: I.ghost["new_primitive"](I)
+
+        def env_call(I, env, method, args, kw):
+            if env.path == "acse.dul" and method == "send_pdu":
+                I.trace.append(Ev("send_pdu", (args[0],)))
+                return None
+            return NotImplemented
+        c.env_call = env_call
+        return c
+
+    def body(self, I):
+        P, g = self.P, I.ghost
+        made = []
+
+        def new_primitive(I_):
+            p = Env(f"primitive{len(made)}")
+            made.append(p)
+            return p
+        g["new_primitive"] = new_primitive
+        me = Env("acse", cls=I.repo.cls(f"{AC}:ACSE"))
+        assoc, acceptor, dul = Env("acse.assoc"), Env("acse.acceptor"), Env("acse.dul")
+        me.attrs.update(_assoc=assoc, assoc=assoc, acceptor=acceptor, dul=dul)
+        assoc.attrs["acceptor"] = acceptor
+        res, src, dia = I.input("int", "result"), I.input("int", "source"), I.input("int", "diagnostic")
+        kind, val = I.run_function(I.repo.func(f"{AC}:ACSE.send_reject"), [me, res, src, dia])
+        valid = z3.And(z3.Or(res.e == 1, res.e == 2),
+                       z3.Or(z3.And(src.e == 1, z3.Or(dia.e == 1, dia.e == 2, dia.e == 3, dia.e == 7)),
+                             z3.And(z3.Or(src.e == 2, src.e == 3), z3.Or(dia.e == 1, dia.e == 2))))
+        sent = [e for e in I.trace if e.name == "send_pdu"]
+        flags = [e for e in I.trace if e.name == "setattr" and e.args[0] == "acse.assoc"]
+        if kind == "raise":
+            I.ob(f"{P}/only-a-triple-outside-PS3.8-Table-9-21-is-refused-and-with-ValueError", z3.Not(valid) if val.cls_name == "ValueError" else False,
+                 detail=repr(val))
+            I.ob(f"{P}/a-refused-triple-sends-nothing-and-marks-nothing", not sent and not flags, detail=repr([e.name for e in I.trace]))
+            return
+        I.ob(f"{P}/only-triples-of-PS3.8-Table-9-21-are-sent", valid)
+        I.ob(f"{P}/exactly-one-fresh-A-ASSOCIATE-primitive-is-sent", len(sent) == 1 and len(made) == 1 and sent[0].args[0] is made[0],
+             detail=f"{len(sent)} sent, {len(made)} constructed")
+        if len(made) != 1 or len(sent) != 1:
+            return
+        prim = made[0]
+        sets = {}
+        for e in I.trace[:I.trace.index(sent[0])]:
+            if e.name == "setattr" and e.args[0] == prim.path:
+                sets.setdefault(e.args[1], []).append(e.args[2])
+        same = lambda k, v: len(sets.get(k, [])) == 1 and sets[k][0] is v
+        I.ob(f"{P}/the-primitive-carries-exactly-the-result-source-and-reason-it-was-called-with",
+             same("result", res) and same("result_source", src) and same("diagnostic", dia) and set(sets) == {"result", "result_source", "diagnostic"},
+             detail=repr(sets))
+        fl = {e.args[1]: e.args[2] for e in flags}
+        I.ob(f"{P}/the-association-is-marked-rejected-and-not-established", fl.get("is_rejected") is True and fl.get("is_established") is False
+             and set(fl) == {"is_rejected", "is_established"}, detail=repr(fl))
+
+
+class SendAbortTask(Task):
+    """ACSE.send_abort / send_ap_abort on their real bodies for arbitrary integers: the sources 0 and 2 (reasons 0,1,2,4,5,6) leave
+    as one fresh A-ABORT / A-P-ABORT primitive carrying that value, the association is marked aborted and not established;
+    anything else is ValueError before anything is sent or marked."""
+    shard = False
+
+    def __init__(self, which, prefix="C11/"):
+        self.which, self.prefix = which, prefix
+        self.fn = f"{AC}:ACSE.send_abort" if which == "abort" else f"{AC}:ACSE.send_ap_abort"
+        self.name = f"ACSE.send_{'abort' if which == 'abort' else 'ap_abort'}"
+        self.functions = [self.fn]
+        self.P = f"{prefix}{self.fn}"
+
+    def config(self, repo):
+        c = Config()
+        c.ob_prefix = self.prefix
+        cls = "A_ABORT" if self.which == "abort" else "A_P_ABORT"
+        c.summaries[f"pynetdicom.pdu_primitives:{cls}"] = lambda I, a, k: I.ghost["new_primitive"](I)
+
+        def env_call(I, env, method, args, kw):
+            if env.path == "acse.dul" and method == "send_pdu":
+                I.trace.append(Ev("send_pdu", (args[0],)))
+                return None
+            return NotImplemented
+        c.env_call = env_call
+        return c
+
+    def body(self, I):
+        P, g = self.P, I.ghost
+        made = []
+
+        def new_primitive(I_):
+            p = Env(f"primitive{len(made)}")
+            made.append(p)
+            return p
+        g["new_primitive"] = new_primitive
+        me = Env("acse", cls=I.repo.cls(f"{AC}:ACSE"))
+        assoc, dul = Env("acse.assoc"), Env("acse.dul")
+        me.attrs.update(_assoc=assoc, assoc=assoc, dul=dul)
+        v = I.input("int", "source" if self.which == "abort" else "reason")
+        kind, val = I.run_function(I.repo.func(self.fn), [me, v])
+        legal = [0, 2] if self.which == "abort" else [0, 1, 2, 4, 5, 6]
+        valid = z3.Or(*[v.e == k for k in legal])
+        sent = [e for e in I.trace if e.name == "send_pdu"]
+        flags = [e for e in I.trace if e.name == "setattr" and e.args[0] == "acse.assoc"]
+        if kind == "raise":
+            I.ob(f"{P}/only-a-value-PS3.8-does-not-define-is-refused-and-with-ValueError", z3.Not(valid) if val.cls_name == "ValueError" else False,
+                 detail=repr(val))
+            I.ob(f"{P}/a-refused-value-sends-nothing-and-marks-nothing", not sent and not flags)
+            return
+        I.ob(f"{P}/only-values-PS3.8-defines-are-sent", valid)
+        I.ob(f"{P}/exactly-one-fresh-abort-primitive-is-sent", len(sent) == 1 and len(made) == 1 and sent[0].args[0] is made[0],
+             detail=f"{len(sent)} sent, {len(made)} constructed")
+        if len(made) != 1 or len(sent) != 1:
+            return
+        sets = {}
+        for e in I.trace[:I.trace.index(sent[0])]:
+            if e.name == "setattr" and e.args[0] == made[0].path:
+                sets.setdefault(e.args[1], []).append(e.args[2])
+        attr = "abort_source" if self.which == "abort" else "provider_reason"
+        I.ob(f"{P}/the-primitive-carries-exactly-the-value-it-was-called-with", set(sets) == {attr} and len(sets[attr]) == 1 and sets[attr][0] is v,
+             detail=repr(sets))
+        fl = {e.args[1]: e.args[2] for e in flags}
+        I.ob(f"{P}/the-association-is-marked-aborted-and-not-established", fl.get("is_aborted") is True and fl.get("is_established") is False
+             and set(fl) == {"is_aborted", "is_established"}, detail=repr(fl))
+
+
 class RequestorSiteFamilyTask(FiniteTask):
     """bounded stand-in (labelled bounded, never counted as proved): the REAL _negotiate_as_requestor executed on every list of
     1..3 requested contexts over two abstract syntaxes (repeated abstract syntaxes included) x every set of role items for those
